@@ -70,9 +70,11 @@ def _to_copy(op, t, dtype=None, **kwargs):
         return op(t.dequantize(), dtype=dtype, **kwargs)
     # For data, ignore dtype and use the inner type instead
     out_data = op(t._data, dtype=t._data.dtype, **kwargs)
-    # Apply the new dtype on the scale only
+    # Apply the new dtype on the scale only (a memory format only applies to the data: the scale can have another rank)
+    memory_format = kwargs.pop("memory_format", None)
     out_scale = op(t._scale, dtype=dtype, **kwargs)
-    return QBytesTensor(t.qtype, t.axis, t.size(), t.stride(), out_data, out_scale)
+    out_stride = t.stride() if memory_format in (None, torch.preserve_format) else out_data.stride()
+    return QBytesTensor(t.qtype, t.axis, t.size(), out_stride, out_data, out_scale)
 
 
 @register_qbytestensor_op([torch.ops.aten.detach])
@@ -130,7 +132,8 @@ def clone(op, t, memory_format=torch.preserve_format):
     out_data = op(t._data, memory_format=memory_format)
     out_stride = out_data.stride()
     out_data = out_data.reshape(data_shape)
-    out_scale = op(t._scale, memory_format=memory_format)
+    # (the memory format only applies to the data: the scale can have another rank)
+    out_scale = op(t._scale)
     return QBytesTensor(t.qtype, t.axis, t.size(), out_stride, out_data, out_scale)
 
 
